@@ -2,6 +2,9 @@
 // network task corrupts and re-segments them, the five real decoders are called
 // directly on harness-owned vectors and resumed after every return code.
 #include "worlds/common.hpp"
+#include "kernel/simio.hpp"
+#include <poll.h>
+#include <fcntl.h>
 
 using namespace sim;
 using namespace mpt;
@@ -66,7 +69,20 @@ struct HostileWorld : World {
 			size_t n = (size_t) r.range(0, 300);
 			for (size_t i = 0; i < n; ++i) stream.push_back((uint8_t) (r.chance(1, 8) ? 0 : r.below(256)));
 		}
-		if (stream.size() > 300) stream.resize(300);
+		if (r.chance(1, 6)) {
+			// layer 2: a real reader stream on a simulated descriptor gets well-formed frames with stray delimiters between them (the one kind of
+			// damage whose outcome the statement fixes for every frame: the frames arrive, the stray delimiters are errors or nothing)
+			p.set("layer", 2); if (framing == ref::COMMAND) { framing = (int) r.below(4); p.set("framing", framing); }
+			stream.clear(); ncorrupt = 0;
+			int nfr = (int) r.range(1, 5);
+			for (int i = 0; i < nfr; ++i) {
+				for (int z = (int) r.below(3) == 0 ? (int) r.range(1, 2) : 0; z > 0; --z) { stream.push_back(0); ++ncorrupt; }
+				Bytes m = gen_message(r, r.chance(1, 6) ? 120 : 20, true); if (m.empty()) m.push_back((uint8_t) r.range(1, 255));
+				Bytes f = ref::encode(framing, m); stream.insert(stream.end(), f.begin(), f.end());
+			}
+			if (r.chance(1, 3)) { stream.push_back(0); ++ncorrupt; }
+		}
+		if (stream.size() > 300 && p.get("layer") != 2) stream.resize(300);
 		p.set("corruptions", ncorrupt);
 		p.blobs.push_back(stream);
 		int nops = (int) r.range(0, 60);
@@ -100,6 +116,48 @@ struct HostileWorld : World {
 
 	struct Fr { size_t beg, end; int verdict; Bytes msg; };
 	static const std::vector<Fr> &frames_of(const std::vector<Fr> &f) { return f; }
+	// ---------------------------------------------------------------- frames with stray delimiters through a real reader stream
+	struct SRx { std::vector<Bytes> got; Log *log; };
+	static int stream_msg(void *arg, const message *m) {
+		Harness h; SRx *rx = (SRx *) arg; message tmp = *m; size_t len = mpt_message_length(&tmp); Bytes b(len); mpt_message_read(&tmp, len, b.data());
+		rx->log->ev("  message %zu bytes %s", len, sim::hex(b, 12).c_str()); rx->got.push_back(b); return 0;
+	}
+	void exec_stream(const Plan &p, int framing, const Bytes &bytes, const std::vector<Fr> &frames, Log &log, Stats &st) {
+		st.hit("layer:stream");
+		int ch = simio::new_chan(1 << 16); int fd = simio::new_fd(ch, -1, O_RDONLY | O_NONBLOCK);
+		stream rs; socket sk; sk._id = fd;
+		int rc; { Sut s; rc = mpt_stream_dopen(&rs, &sk, stream::Buffer); } sk._id = -1;
+		if (rc < 0) fail("setup", "mpt_stream_dopen on the simulated descriptor failed (%d)", rc);
+		rs._rd._dec = decoder_for(framing);
+		SRx rx; rx.log = &log; size_t fed = 0; int errors = 0;
+		// the reader follows the protocol of the library's own loop: ask for input, dispatch, dispatch again only while told to (Retry)
+		auto turn = [&]() {
+			int pr; { Sut s; pr = mpt_stream_poll(&rs, POLLIN, 0); }
+			if (pr <= 0) return false;
+			int d, more = 0; { Sut s; d = mpt_stream_dispatch(&rs, stream_msg, &rx); } check_pending();
+			log.ev("DISPATCH -> %d", d); if (d < 0) ++errors;
+			// (again while told to, and - this reader's policy - again after an error that was reported to it: what it cannot make up for is an
+			// error that was neither reported nor answered with a request to call again)
+			while (((d >= 0 && (d & 0x10000)) || d < 0) && ++more < 256) { { Sut s; d = mpt_stream_dispatch(&rs, stream_msg, &rx); } check_pending(); log.ev("DISPATCH (again) -> %d", d); if (d < 0) { if (++errors > 32) break; } }
+			return true;
+		};
+		for (const Op &op : p.ops) {
+			if (op.kind == OP_ARRIVE) { size_t n = std::min<size_t>((size_t) std::max<int64_t>(op.a, 1), bytes.size() - fed); simio::Chan *c = simio::chan(ch); for (size_t i = 0; i < n; ++i) c->wire.push_back(bytes[fed++]); simio::deliver(ch, n); log.ev("ARRIVE %zu", n); st.hit("op:ARRIVE"); }
+			else { st.hit("op:DECODE"); turn(); }
+		}
+		{ simio::Chan *c = simio::chan(ch); while (fed < bytes.size()) c->wire.push_back(bytes[fed++]); simio::deliver(ch, 1 << 20); }
+		for (int i = 0; i < 64 && turn(); ++i) { }
+		// every well-formed frame arrives, in order, with its bytes; a stray delimiter is an error or nothing, never a message
+		std::vector<Bytes> want; for (auto &f : frames) if (f.verdict == ref::WELL) want.push_back(f.msg);
+		for (size_t i = 0; i < rx.got.size(); ++i) {
+			if (i >= want.size()) fail("invented", "%s reader stream delivered %zu messages, the input holds %zu well-formed frames (extra one: %s)", ref::framing_name(framing), rx.got.size(), want.size(), sim::hex(rx.got[i], 12).c_str());
+			if (rx.got[i] != want[i]) fail("wrong-message", "%s reader stream: message %zu arrives as %s, the frame holds %s", ref::framing_name(framing), i, sim::hex(rx.got[i], 12).c_str(), sim::hex(want[i], 12).c_str());
+		}
+		if (rx.got.size() < want.size()) fail("no-verdict", "%s reader stream: all %zu bytes have arrived and no more input is reported, %zu of the %zu well-formed frames were delivered (%d errors reported); the next one waits in the read buffer", ref::framing_name(framing), bytes.size(), rx.got.size(), want.size(), errors);
+		st.hit("frames:wellformed_delivered", (uint64_t) want.size());
+		{ Sut s; mpt_stream_close(&rs); }
+		if (ledger_live()) fail("leak", "%zu block(s) allocated by the reader stream after close", ledger_live());
+	}
 	// ---------------------------------------------------------------- the same hostile bytes through a real decode queue
 	void exec_queue(const Plan &p, int framing, const Bytes &stream, const std::vector<Fr> &frames, Log &log, Stats &st) {
 		decode_queue dq(decoder_for(framing));
@@ -210,6 +268,7 @@ struct HostileWorld : World {
 			if (framing == ref::COMMAND) { Bytes m; m.push_back(0x04); m.push_back(' '); m.insert(m.end(), f.msg.begin(), f.msg.end()); f.msg = m; }
 			frames.push_back(f); b = i + 1;
 		}
+		if (p.get("layer") == 2) { exec_stream(p, framing, stream, frames_of(frames), log, st); return; }
 		if (p.get("layer")) { exec_queue(p, framing, stream, frames_of(frames), log, st); return; }
 		const bool insist = p.get("insist") != 0;
 		decode_state ds;
